@@ -8,6 +8,7 @@ import importlib
 import json
 import multiprocessing as mp
 import os
+import pickle
 import pkgutil
 import subprocess
 import sys
@@ -76,9 +77,77 @@ def _verify_job(args):
             faulthandler.cancel_dump_traceback_later()
 
 
+_CACHE_KEY = {}
+
+
+def cache_key(qn, tier):
+    """Report cache key: every byte that can influence a function's report -- all of src/h2/*.py as read now,
+    the engine, every contract / spec module, the tier.  A changed tree can therefore never hit an old entry."""
+    if 'base' not in _CACHE_KEY:
+        h = hashlib.sha256()
+        for d in (extract.SRC_DIR, os.path.join(ROOT, 'h2vc'), os.path.join(ROOT, 'contracts')):
+            for n in sorted(os.listdir(d)):
+                if n.endswith('.py'):
+                    h.update(d.encode() + b'/' + n.encode() + b'\0')
+                    with open(os.path.join(d, n), 'rb') as f:
+                        h.update(f.read())
+        _CACHE_KEY['base'] = h.hexdigest()
+    return hashlib.sha256(('%s|%s|%s' % (_CACHE_KEY['base'], qn, tier)).encode()).hexdigest()
+
+
+CACHE_DIR = os.path.join(ROOT, '.cache', 'reports')
+CACHE_STATS = {'hits': [], 'misses': []}
+
+
+def cache_load(qn, tier):
+    if os.environ.get('H2VC_NO_CACHE'):
+        return None
+    p = os.path.join(CACHE_DIR, cache_key(qn, tier) + '.pkl')
+    try:
+        with open(p, 'rb') as f:
+            rep = pickle.load(f)
+        return rep if rep.qualname == qn else None
+    except Exception:
+        return None
+
+
+def cache_store(qn, tier, rep):
+    if os.environ.get('H2VC_NO_CACHE') or rep.undecided:
+        return
+    try:
+        os.makedirs(CACHE_DIR, exist_ok=True)
+        p = os.path.join(CACHE_DIR, cache_key(qn, tier) + '.pkl')
+        with open(p + '.%d.tmp' % os.getpid(), 'wb') as f:
+            pickle.dump(rep, f)
+        os.replace(p + '.%d.tmp' % os.getpid(), p)
+    except Exception:
+        pass
+
+
 def run_all(targets, tier, seed, serial=False, nproc=16):
-    """Work queue over (function, subtree-prefix) jobs on a process pool."""
+    """Work queue over (function, subtree-prefix) jobs on a process pool.  A function whose report was already
+    computed from byte-identical source, contracts and engine (another property's check on the same tree) is
+    taken from the report cache; evidence says which."""
     reports, crashes = {}, []
+    todo = []
+    for qn in targets:
+        rep = cache_load(qn, tier)
+        if rep is not None:
+            reports[qn] = rep
+            CACHE_STATS['hits'].append(qn)
+        else:
+            todo.append(qn)
+            CACHE_STATS['misses'].append(qn)
+    reports, crashes = _run_all(todo, tier, seed, serial, nproc, reports)
+    crashed = {qn for qn, _ in crashes}
+    for qn in todo:
+        if qn in reports and qn not in crashed:
+            cache_store(qn, tier, reports[qn])
+    return reports, crashes
+
+
+def _run_all(targets, tier, seed, serial, nproc, reports):
+    crashes = []
     jobs = [(qn, [[]], 24, tier, seed) for qn in targets]
     import concurrent.futures as cf
     pool = None if serial else cf.ProcessPoolExecutor(max_workers=nproc, mp_context=mp.get_context('fork'))
@@ -273,6 +342,8 @@ def cmd_prove(a):
             'bounded_standins': _bounded_summary(bounded_obs, bounded_out_paths),
             'modular_calls': sorted(modular_used),
             'tree': tree_id(),
+            'report_cache': {'reused_from_an_earlier_check_on_the_identical_tree': sorted(CACHE_STATS['hits']),
+                             'computed_in_this_run': sorted(CACHE_STATS['misses'])},
         },
         'assumptions': ASSUMED_SEMANTICS + ['dependency model: ' + m for m in sorted(models)],
         'wall_s': round(time.time() - t0, 2),
